@@ -274,7 +274,11 @@ impl LangInterpreter for French {
                 let previous_is_num = self.apply(previous_text, &mut b).is_ok();
                 b.reset();
                 let next_is_num = self.apply(next_text, &mut b).is_ok();
-                if previous_text != "numéro" && !previous_is_num && !next_is_num {
+                if previous_text != "numéro"
+                    && !self.is_decimal_sep(previous_text)
+                    && !previous_is_num
+                    && !next_is_num
+                {
                     tokens[true_words[i]].set_nan(true);
                 }
             }
